@@ -204,7 +204,8 @@ theorem writeBody_bin_parts (c : Coding α) (cfg : WriterCfg) (m : MeshVal α) (
       (m.topo ≠ .triangle → faceBytes = []) ∧
       (m.topo = .triangle → ∃ tris fs, chunk3 m.indices = some tris ∧ faceRecords m tris = .ok fs ∧
         faceBytes = (fs.map (encFaceBin c cfg.format.endian)).flatten) := by
-  simp only [writeBody] at h
+  obtain ⟨_, h⟩ := writeBody_core_of_ok c cfg m body h
+  simp only [writeBodyCore] at h
   cases hrecs : (List.range m.attrLen).mapM (vertexRecord m (selectWriters cfg m)) with
   | error e => simp [hrecs, bind, Except.bind] at h
   | ok recs =>
